@@ -10,7 +10,7 @@ import os
 
 from ..lattice import bv_family, reaching_classes
 from ..model import call_name, own_nodes, unparse
-from ..pathcond import conds_truth, path_info, truth_table
+from ..pathcond import assigned_alternatives, conds_truth, path_info, truth_table
 from ._serial import ENC, PYTYPES
 from .C04 import union_partitions
 
@@ -201,17 +201,12 @@ def run(pm, ctx):
               key='C05-R4|%s|caller_in_parent' % g_.qualname)
     # every chaining decision is taken on caller_in_parent alone
     n_sites = 0
-    for n in own_nodes(g_.node):
-        chained = None
-        if isinstance(n, ast.Assign) and unparse(n.targets[0]) == 'before':
-            t = unparse(n.value)
-            chained = 'parent_type_class_name' in t
-        elif isinstance(n, ast.Call) and call_name(n) == 'emit' and n.args and \
-                'format' in unparse(n.args[0]) and '_map_name' in unparse(n.args[0]):
-            t = unparse(n.args[0])
-            chained = 'parent_type_class_name' in t
-        if chained is None:
-            continue
+    sites = [(leaf, unparse(leaf)) for leaf, _ in assigned_alternatives(g_.node, 'before')] + \
+        [(n, unparse(n.args[0])) for n in own_nodes(g_.node)
+         if isinstance(n, ast.Call) and call_name(n) == 'emit' and n.args and
+         'format' in unparse(n.args[0]) and '_map_name' in unparse(n.args[0])]
+    for n, t in sites:
+        chained = 'parent_type_class_name' in t
         n_sites += 1
         pols = [(unparse(e), pol) for e, pol in pi.at(n)
                 if unparse(e) not in ('data_type.is_member_of_enumerated_subtypes_tree()',)]
